@@ -1289,9 +1289,15 @@ async fn recycle_history(rng: &mut Rng, srv: &resp::Server) -> usize {
         } else {
             deadpool_redis::Config::from_url(url).builder().unwrap()
         };
-        let b = b.max_size(max).runtime(Runtime::Tokio1);
+        // every other pool with room for more than one connection is built small and grown
+        let grown = max > 1 && rng.chance(40);
+        let b = b.max_size(if grown { 1 } else { max }).runtime(Runtime::Tokio1);
         let b = if pool_level { b.wait_timeout(tmo.wait).recycle_timeout(tmo.recycle) } else { b };
-        b.build().unwrap()
+        let p = b.build().unwrap();
+        if grown {
+            p.resize(max);
+        }
+        p
     };
     println!("rp cfg max={max}");
     println!("rpobs cfg ok");
